@@ -74,7 +74,11 @@ Definition faithful_obs (c : tg_case) : bool :=
           forallb (fun '(id, o) =>
                      match o with
                      | OOk pt => match parse_type pt with
-                                 | Some t => faithful_id r (fenv_of s) m id t
+                                 | Some t => faithful_id r (fenv_of s) m
+                                               (fun i => match nth_error (tg_paths c) (N.to_nat i) with
+                                                         | Some (OOk x) => parse_type x
+                                                         | _ => None
+                                                         end) id t
                                  | None => false
                                  end
                      | _ => true
